@@ -125,6 +125,8 @@ def build_ops(K, rng, slot=0, version="1.2", permute=True, iid_base=0):
         rng.shuffle(order)
     for i in order:
         o = {"op": "img_new", "iid": iid_base + i, "attrs": dict(K["imgs"][i])}
+        if rng.random() < 0.3:
+            o["inplace"] = [f for f in ("checksums", "additional_variants") if rng.random() < 0.7]
         o.update(sl)
         ops.append(o)
     cells = list(K["cells"])
